@@ -20,7 +20,7 @@ ASSUMPTIONS = ["invocations are compared by (function, argument hash), not by po
                "the model is ~100 lines of pure Python in checks/calltree.py"]
 COMPONENTS = {"real": ["runner (single + batch paths), call stack, propagate_dependencies, resource functions, storage backends", "fork lifetimes"],
               "stub": ["generated program", "uuid4, clock"]}
-REACH = ["rounds", "records_compared", "rounds_with_memoized_subcalls", "batch_root_runs", "restarts", "evictions",
+REACH = ["concurrent_cases", "sched:provenance_records_checked", "rounds", "records_compared", "rounds_with_memoized_subcalls", "batch_root_runs", "restarts", "evictions",
          "trees_with_failing_calls", "trees_with_batches", "trees_with_resources"]
 
 
@@ -35,8 +35,54 @@ def gen_case(seed):
             "backend": rng.choice(["fs", "fs+cache", "memory"]), "ctx": None}
 
 
+NSCHED = {"quick": 1200, "thorough": 20000}
+
+
+def sched_cases(tier, seed):
+    """Provenance under concurrent callers: 'found in the store' also happens between a caller's batch pre-check and its
+    look-up under the per-call mutex, when another thread memoizes the sub-call in between.  The thread scheduler of
+    engine sched (checks/c09.py) runs 2-3 threads over a small DAG; afterwards the stored record of every call is
+    compared with the model (direct calls in order, transitive function set)."""
+    from . import c09
+    out = []
+    for i in range(NSCHED[tier]):
+        s = core.run_seed(seed, PROP + "-sched", i)
+        c = c09.gen_case(s, tier)
+        if c.get("step_cap") or c["backend"] == "memory":
+            c["backend"] = "fs"
+            c.pop("step_cap", None)
+            c["threads"] = {k: [op for op in v if op[1] != "wide"] or [["call", "top", 1]] for k, v in c["threads"].items()}
+        if c["scenario"] != "cold":
+            c["scenario"] = "cold"
+        c["sched"] = True
+        c["provenance"] = True
+        out.append(c)
+    # systematic single pre-emptions over two callers that share sub-calls
+    stride = 5 if tier == "quick" else 1
+    bases = [{"T0": [["call", "top", 1]], "T1": [["call", "mid", 1]]},
+             {"T0": [["call", "catcher", 1]], "T1": [["call", "part", 1]]},
+             {"T0": [["call", "top", 0]], "T1": [["batch", "leaf", [1, 0, 1]]]}]
+    for bi, threads in enumerate(bases):
+        for first in (0, 1):
+            for at in range(1, 4000 if tier == "thorough" else 2400, stride):
+                out.append({"seed": 8100 + bi, "backend": "fs", "scenario": "cold", "keymode": "sweep", "threads": threads,
+                            "strategy": {"kind": "sweep", "at": at, "to": 0, "first": first}, "sched": True, "provenance": True})
+    return out
+
+
 def cases(tier, seed):
-    return [gen_case(core.run_seed(seed, PROP, i)) for i in range(NCASES[tier])]
+    return [gen_case(core.run_seed(seed, PROP, i)) for i in range(NCASES[tier])] + sched_cases(tier, seed)
+
+
+def execute_sched(case):
+    from . import c09
+    r = c09.execute(case)
+    # only the provenance clauses are C10's; everything else is reported by C09 itself
+    r["violations"] = [v for v in r["violations"] if v["clause"].startswith("record-")]
+    st = {"sched:" + k: v for k, v in (r.get("stats") or {}).items() if k in ("preemptions", "lock_contention", "provenance_records_checked")}
+    st["concurrent_cases"] = 1
+    r["stats"] = st
+    return r
 
 
 def callargs(prog, i, x):
@@ -144,6 +190,8 @@ def run_rounds(root, case, group, calls, li):
 
 
 def execute(case):
+    if case.get("sched"):
+        return execute_sched(case)
     root = core.new_scratch("c10")
     viol = []
     stats = {}
@@ -239,3 +287,19 @@ def execute(case):
     return {"violations": viol[:1], "digest": dg, "nontrivial": nontriv, "stats": stats, "steps": len(log), "key": dg,
             "sample": {"backend": case["backend"], "x": case["x"], "rounds": case["rounds"],
                        "nodes": [[n["name"], n["fail_on"], [[e["to"], e["mode"]] for e in n["edges"]]] for n in case["prog"]["nodes"]]}}
+
+
+def shrink(case, same, budget_s):
+    if case.get("sched"):
+        from . import c09
+        return c09.shrink(case, same, budget_s)
+    cur = case
+    i = 0
+    while i < len(cur["rounds"]) and len(cur["rounds"]) > 1:      # drop rounds one at a time
+        c = dict(cur)
+        c["rounds"] = cur["rounds"][:i] + cur["rounds"][i + 1:]
+        if same(c):
+            cur = c
+        else:
+            i += 1
+    return cur
